@@ -38,6 +38,7 @@ structure DState where
   tab : Table Item := Table.newWith 0 0
   tabKind : Nat := 0
   cch : Cache (UInt64 × UInt64) Nat := Cache.new 0
+  ckc : Cache OpKey Ref := Cache.new 0
   raw : R.Raw Nat Nat := R.Raw.new
   rawKind : Nat := 0
   rawDbg : Bool := false
@@ -107,6 +108,17 @@ def cacheSnapshot {κ ν : Type} (c : Cache κ ν) (showK : κ → String) (show
     | none => (acc.1 + 1, acc.2)) (0, "")
   "slots=" ++ toString c.data.size ++ body ++ " hits=" ++ toString c.hits ++ " faults=" ++
     toString c.faults ++ " misses=" ++ toString c.misses
+
+def refOfRaw (n : Nat) : Ref := ⟨n / 2, n % 2 == 1⟩
+def parseKey (kind f g h : String) : Option OpKey :=
+  match f.toNat?, g.toNat?, h.toNat? with
+  | some f, some g, some h =>
+    match kind with
+    | "ite" => some (.ite (refOfRaw f) (refOfRaw g) (refOfRaw h))
+    | "con" => some (.constrain (refOfRaw f) (refOfRaw g))
+    | "res" => some (.restrict (refOfRaw f) (refOfRaw g))
+    | _ => none
+  | _, _, _ => none
 
 def stSnapshot (s : St) : String :=
   tableSnapshot s.storage showNode ++ " | K " ++ cacheSnapshot s.cache showKey (fun r => toString r.raw) ++
@@ -214,6 +226,7 @@ def step (d : DState) (line : String) : DState × String :=
   let _ := s!"{bad.2}"
   match toks with
   | ["mode", m] => ({ d with abs := m == "abstract" }, "ok")
+  | "vmap" :: _ :: _ => (d, "ok")   -- harness-side oracle configuration; no effect on the model
   | ["new", sb, bb, cb] =>
     match sb.toNat?, bb.toNat?, cb.toNat? with
     | some sb, some bb, some cb =>
@@ -280,6 +293,21 @@ def step (d : DState) (line : String) : DState × String :=
   | ["c.clear"] => ({ d with cch := d.cch.clear }, "ok")
   | ["c.dump"] =>
     (d, cacheSnapshot d.cch (fun k => toString k.1.toNat ++ "," ++ toString k.2.toNat) toString)
+  -- Cache<OpKey,Ref> driven directly (keys need not name stored nodes)
+  | ["ck.new", bits] =>
+    match bits.toNat? with | some b => ({ d with ckc := Cache.new b }, "ok") | none => bad
+  | ["ck.insert", kind, f, g, h, v] =>
+    match parseKey kind f g h, v.toNat? with
+    | some k, some v => ({ d with ckc := d.ckc.insert k (refOfRaw v) }, "ok")
+    | _, _ => bad
+  | ["ck.get", kind, f, g, h] =>
+    match parseKey kind f g h with
+    | some k =>
+      let p := d.ckc.get k
+      ({ d with ckc := p.1 }, match p.2 with | some v => "some " ++ toString v.raw | none => "none")
+    | none => bad
+  | ["ck.clear"] => ({ d with ckc := d.ckc.clear }, "ok")
+  | ["ck.dump"] => (d, cacheSnapshot d.ckc showKey (fun r => toString r.raw))
   -- RawTable
   | ["raw.new", kind, dbg] =>
     match kind.toNat? with
@@ -385,7 +413,7 @@ def step (d : DState) (line : String) : DState × String :=
     | _, _, _ => bad
   | ["constrain", f, g] => match H f, H g with | some f, some g => pushRes s (constrain FUEL s f g) | _, _ => bad
   | ["restrict", f, g] => match H f, H g with | some f, some g => pushRes s (restrict FUEL s f g) | _, _ => bad
-  | "expr" :: ts =>
+  | "exprc" :: _ :: ts | "expr" :: ts =>
     match ts.mapM (parseTok d.env) with
     | some tl =>
       match parseRust tl with
